@@ -78,52 +78,79 @@ def check(ctx):
     ctx.rule("R3.5", "train a fresh copy from scratch on one selector")
     ctx.rule("R3.6", "empty neighbourhood: NaN for every arm, exact guard, choice operands")
     # ---------------------------------------------------------------- R3.1 / R3.3 Radius
+    # (the analysed copy has single-assignment temporaries and extracted helpers inlined, so the selection is looked
+    # at where it is used: the `indices` argument of _get_nhood_predictions)
+    from .c15 import _inline, _selection_arg
+    from .pattern import match, any_match
     fr = prog.method("_Radius", "_predict_contexts")
     ctx.saw_fn(fr)
     loop = _row_loop(fr)
-    from .c15 import _inline
-    from .pattern import match, any_match
-    sel, sb = _selection(loop) if loop is not None else (None, None)
-    X = sb["_X_"] if sb else None
-    if sel is None or "_EC_" not in sb:
+
+    def T(lp, e):
+        return " ".join(ast.unparse(_inline(lp, e)).split())
+    sel = _selection_arg(prog, "_Radius", loop) if loop is not None else None
+    sel_t = T(loop, sel) if sel is not None else None
+    sb = None
+    if sel is not None:
+        sel_i = ast.parse(sel_t, mode="eval").body
+        for pat, flat in (("np.where(_EC_)", False), ("np.nonzero(_EC_)", False), ("np.flatnonzero(_EC_)", True),
+                          ("np.where(_EC_)[0]", True), ("np.nonzero(_EC_)[0]", True)):
+            sb = match(pat, sel_i)
+            if sb is not None:
+                sb["flat"] = flat
+                break
+    if sb is None:
         ctx.undecided("R3.1", "_Radius: the neighbour selection is not np.where(<condition>)", fr.node, fr,
+                      "selection handed to _get_nhood_predictions: `%s`" % sel_t,
                       construct="def _Radius._predict_contexts")
     else:
         idx_name, row_name = _row_names(loop)
-        cond = sel.value.args[0]
+        cond = ast.parse(sb["_EC_"], mode="eval").body
         inc = any_match(("_ED_ <= self.radius", "self.radius >= _ED_", "np.less_equal(_ED_, self.radius)",
                          "~(_ED_ > self.radius)", "np.logical_not(_ED_ > self.radius)"), cond)
         ctx.check(inc is not None, "R3.1", "Radius selects rows whose distance is at most the radius (boundary "
                   "included)", sel, fr, "selector `%s` is not an inclusive comparison with self.radius" %
-                  ast.unparse(cond))
+                  ast.unparse(cond), construct="radius comparison of _Radius")
         if inc is not None:
-            dnode = ast.parse(inc["_ED_"], mode="eval").body
-            dx = " ".join(ast.unparse(_inline(loop, dnode)).split())
+            dx = " ".join(inc["_ED_"].split())
             ctx.check(_distance_expr_ok(dx, row_name), "R3.3", "Radius distances: cdist(stored contexts, row as 1 x d, "
                       "metric), flattened", sel, fr, "distance expression `%s`" % dx,
                       construct="distance vector of _Radius")
-    # guard of the empty branch
-    if loop is not None and X is not None:
-        ifs = [s for s in loop.body if isinstance(s, ast.If)]
+        # guard of the empty branch: a cardinality test of the very selection
+        calls = [c for c in ast.walk(loop) if isinstance(c, ast.Call) and isinstance(c.func, ast.Attribute)
+                 and c.func.attr == "_get_nhood_predictions"]
+        iff = parent(calls[0]) if calls else None
+        while iff is not None and not isinstance(iff, ast.If):
+            iff = parent(iff)
         okg = False
         gt = ""
-        if ifs:
-            iff = ifs[-1]
-            gt = ast.unparse(iff.test)
-            okg = any_match(("_X_[0].size > 0", "_X_[0].size", "len(_X_[0]) > 0", "_X_[0].size != 0", "len(_X_[0])"),
-                            iff.test, {"_X_": X}) is not None and \
-                "_get_nhood_predictions" in ast.unparse(iff.body[0]) and \
-                bool(iff.orelse) and "_get_no_nhood_predictions" in ast.unparse(iff.orelse[0])
+        if iff is not None:
+            gt = T(loop, iff.test)
+            one = sel_t if sb["flat"] else "%s[0]" % sel_t
+            nonempty = {"%s.size > 0" % one, "%s.size" % one, "len(%s) > 0" % one, "%s.size != 0" % one,
+                        "len(%s)" % one, "%s.size >= 1" % one, "len(%s) != 0" % one}
+            empty = {"%s.size == 0" % one, "len(%s) == 0" % one, "%s.size < 1" % one}
+            in_body = any(c is x for c in calls for s2 in iff.body for x in ast.walk(s2))
+            other = iff.orelse if in_body else iff.body
+            no_nh = any(isinstance(x, ast.Call) and isinstance(x.func, ast.Attribute) and
+                        x.func.attr == "_get_no_nhood_predictions" for s2 in other for x in ast.walk(s2))
+            okg = no_nh and ((gt in nonempty and in_body) or (gt in empty and not in_body))
         ctx.check(okg, "R3.6", "Radius takes the empty-neighbourhood path exactly when no row was selected",
-                  ifs[-1] if ifs else loop, fr, "guard `%s`" % gt, construct="empty-neighbourhood guard of _Radius")
+                  iff if iff is not None else loop, fr, "guard `%s`" % gt,
+                  construct="empty-neighbourhood guard of _Radius")
     # ---------------------------------------------------------------- R3.2 / R3.3 KNearest
     fk = prog.method("_KNearest", "_predict_contexts")
     ctx.saw_fn(fk)
     loopk = _row_loop(fk)
-    selk, kb = _selection(loopk) if loopk is not None else (None, None)
-    if selk is None or "_ED_" not in kb:
+    selk = _selection_arg(prog, "_KNearest", loopk) if loopk is not None else None
+    kb = None
+    if selk is not None:
+        selk_i = ast.parse(T(loopk, selk), mode="eval").body
+        kb = match("np.argpartition(_ED_, _EK_)[:_ES_]", selk_i) or match("np.argsort(_ED_)[:_ES_]", selk_i)
+    if kb is None:
         ctx.undecided("R3.2", "_KNearest: the neighbour selection is not argpartition/argsort of the distances",
-                      fk.node, fk, construct="def _KNearest._predict_contexts")
+                      fk.node, fk, "selection handed to _get_nhood_predictions: `%s`" %
+                      (T(loopk, selk) if selk is not None else None), construct="def _KNearest._predict_contexts")
     else:
         idx_name, row_name = _row_names(loopk)
         if "_EK_" in kb:
@@ -131,9 +158,8 @@ def check(ctx):
         else:
             ok = kb["_ES_"] == "self.k"
         ctx.check(ok, "R3.2", "KNearest takes the k smallest distances (pivot k-1, first k)", selk, fk,
-                  "selection `%s`" % ast.unparse(selk.value))
-        dnode = ast.parse(kb["_ED_"], mode="eval").body
-        dx = " ".join(ast.unparse(_inline(loopk, dnode)).split())
+                  "selection `%s`" % T(loopk, selk), construct="k-selection of _KNearest")
+        dx = " ".join(kb["_ED_"].split())
         ctx.check(_distance_expr_ok(dx, row_name), "R3.3", "KNearest distances: cdist(stored contexts, row as 1 x d, "
                   "metric), flattened", selk, fk, "distance expression `%s`" % dx,
                   construct="distance vector of _KNearest")
